@@ -185,6 +185,17 @@ func (r *Runner) RunCheck(ck *Check, tier string, seed int, filter string) int {
 				if !found && cr.Status == sym.StatusOK {
 					reachMissing = append(reachMissing, cr.Case.Key())
 				}
+				for _, want := range cr.Case.MustReach {
+					ok := false
+					for _, t := range cr.Reached {
+						if t == want {
+							ok = true
+						}
+					}
+					if !ok && cr.Status == sym.StatusOK {
+						reachMissing = append(reachMissing, cr.Case.Key()+" (witness "+want+")")
+					}
+				}
 			}
 		}
 	}
